@@ -343,6 +343,20 @@ for n_ in ((1, 2, 4, 8, 16, 32) if THOROUGH else (1, 2, 4, 8)):
             u.extra_contracts = DOMC
 
 
+# ---- the same four transforms END TO END: no callee contract below the entry point (best_fft, serial_fft, the bit reversal and whatever
+# helpers the current source has are executed from their real bodies), so the units survive a restructuring of the internals
+E2E = dict(FFTC)
+E2E.update({".par_iter_mut": par_as_serial})
+for (n_, m_) in ((2, 1), (4, 2), (4, 4), (8, 3), (8, 4), (8, 8)) + (((16, 5), (16, 8), (16, 16), (32, 16)) if THOROUGH else ()):
+    for kind, var in (("fft", "w"), ("ifft", "wi"), ("coset_fft", "w"), ("coset_ifft", "wi")):
+        pname = "coeffs" if "ifft" not in kind else "evals"
+        u = unit(f"kernels.domain.{kind}.end_to_end[n={n_},len={m_}]", DM, f"alloc::EvaluationDomain::{kind}", [("self", mk_domain(n_)), (pname, mk_arr("a", m_))],
+                 c_dom(kind, n_, m_), out_dom(n_, var), consts={"GENERATOR": Sym("g")})
+        u.extra_contracts = E2E
+        u.max_paths = 256
+        u.max_inline_depth = 6
+
+
 # ---- best_fft (std build): below the parallel threshold it IS serial_fft
 def c_best_fft_small(n):
     def c(it, recv, a):
